@@ -109,7 +109,10 @@ def do_case(ctx, inp):
         j = json.loads(json.dumps(to_json(a)))
         oj = pg.from_json(j)
         ctx.tags["via-from_json"] += 1
-        ctx.op({"op": "build", "ast": json_ast(a)}, {"t": snap(oj)}, label="build-from_json")
+        # the model's own from_json dispatch (PJ.toAst, theorem C04.fromJson_userJson) on the very JSON the code was given …
+        ctx.op({"op": "from_json", "j": j, "cfg": False, "top": False}, {"t": snap(oj)}, label="build-from_json")
+        # … and the constructor calls that dispatch is proved to make (Ast.viaJson)
+        ctx.op({"op": "build", "ast": json_ast(a)}, {"t": snap(oj)}, label="build-viaJson")
         for s in table:
             want = truth(a, s)
             got = oj.evaluate(s).constant
@@ -214,7 +217,10 @@ def do_cic(ctx, inp):
         ctx.skip("cic-rule-not-validated")
         return
     ctx.case(inp, nontrivial="condition" in d and bool(d["condition"].get("subConditions")), tags=tags_of(t) | {"via-from_cicJE", "cic-mode-" + mode, "cic-rule-" + d["consequence"]["ruleType"]})
-    ctx.op({"op": "build", "ast": cic_ast(d, mode)}, {"t": t}, label="build-from_cicJE")
+    # the model's own rule-dictionary constructor (Cic.toAst, theorem C04.cic_semantics) on the very dictionary …
+    ctx.op({"op": "cic_build", "d": d, "mode": "str" if mode == "str" else "var"}, {"t": t}, label="build-from_cicJE")
+    # … and the harness-side rendering of the same mapping (kept as a cross-check of the two descriptions)
+    ctx.op({"op": "build", "ast": cic_ast(d, mode)}, {"t": t}, label="build-cic_ast")
     lv = leaves_of(t)
     for s in all_assignments(lv):
         want = cic_truth(d, s)
